@@ -254,13 +254,27 @@ CHROME_EXTRA = ["a=msid-semantic: WMS *", "a=extmap-allow-mixed", "a=rtcp-rsize"
                 "a=sctp-port:5001", "a=group:BUNDLE a b", "a=ice-lite", "c=IN IP4 1.2.3.4", "a=msid:s t"]
 
 
+def _samples() -> list:
+    import json as _json
+    from pathlib import Path
+
+    path = Path(__file__).resolve().parent / "data" / "sdp_samples.json"
+    return _json.loads(path.read_text()) if path.exists() else []
+
+
+SAMPLES = _samples()  # browser / gateway descriptions (Chrome, Firefox, Safari, FreeSWITCH ...) as found in the repository's tests
+
+
 @st.composite
 def text_case(draw, tier="quick"):
-    spec = draw(session_spec(tier))
-    text = str(build_session(spec))
+    if SAMPLES and draw(st.integers(0, 2)) == 0:
+        text = draw(st.sampled_from(SAMPLES)).replace("\r\n", "\n").replace("\n", "\r\n")
+    else:
+        spec = draw(session_spec(tier))
+        text = str(build_session(spec))
     lines = text.split("\r\n")[:-1]
     ops = []
-    for _ in range(draw(st.integers(1, 6))):
+    for _ in range(draw(st.integers(0, 6))):
         kind = draw(st.sampled_from(["del", "dup", "swap", "insert", "insert", "tosession", "move"]))
         ops.append([kind, draw(st.integers(0, 1000)), draw(st.integers(0, 1000)), draw(st.sampled_from(CHROME_EXTRA))])
     for kind, i, j, extra in ops:
